@@ -64,6 +64,8 @@ type c29World struct {
 	base    int64 // real Unix second at reset = virtual second 0
 	voff    int64 // virtual seconds elapsed
 	edgeSeq uint64
+	start   time.Time // real instant of the reset
+	skip    bool      // the case took too long on the real clock: the remaining ops are not run
 	// real command content -> (tokens, how to rebuild it at another virtual offset)
 	labels map[string]*c29Label
 }
@@ -115,7 +117,7 @@ func c29Reset(signing bool, wSec int64, ttlMs int64, maxSize int) string {
 		c29W.f.Stop()
 		c29W = nil
 	}
-	w := &c29World{labels: map[string]*c29Label{}, base: time.Now().Unix()}
+	w := &c29World{labels: map[string]*c29Label{}, base: time.Now().Unix(), start: time.Now()}
 	w.keys[0] = crypto.SigningKeypairFromSeed(c29Seed(0x11))
 	w.keys[1] = crypto.SigningKeypairFromSeed(c29Seed(0x22))
 	w.local = c29ID(w, 0)
@@ -232,15 +234,42 @@ func c29Fwd(w *c29World) string {
 	return strings.Join(items, ",")
 }
 
+// c29MaxElapsed: the virtual clock stands still between `adv` ops, the real one does not: every age the
+// code computes is the virtual age plus the real time the case has been running (plus, for command
+// timestamps, the sub-second phase of the clock). The model allows for less than half a second of
+// that; a case that has been running longer (loaded machine) is abandoned: the op and everything
+// after it answer `skipped-drift`, which the model accepts for every op.
+const c29MaxElapsed = 300 * time.Millisecond
+
+func c29Drifted(w *c29World) bool {
+	if time.Since(w.start) > c29MaxElapsed {
+		w.skip = true
+	}
+	return w.skip
+}
+
 func c29Run(line string) string {
 	f := fields(line)
-	w := c29W
-	switch f[0] {
-	case "reset":
+	if f[0] == "reset" {
 		ws, _ := strconv.ParseInt(f[2], 10, 64)
 		ttl, _ := strconv.ParseInt(f[3], 10, 64)
 		mx, _ := strconv.Atoi(f[4])
 		return c29Reset(f[1] == "1", ws, ttl, mx)
+	}
+	selfTimed := f[0] == "edge" || f[0] == "stress" // these do not depend on the case's clock
+	if !selfTimed && c29Drifted(c29W) {
+		return "skipped-drift"
+	}
+	out := c29RunOp(f)
+	if !selfTimed && c29Drifted(c29W) {
+		return "skipped-drift"
+	}
+	return out
+}
+
+func c29RunOp(f []string) string {
+	w := c29W
+	switch f[0] {
 	case "d":
 		from, _ := strconv.Atoi(f[2])
 		origin, _ := strconv.Atoi(f[3])
